@@ -261,7 +261,19 @@ def run(ctx):
         v["minimal_history"] = cur + [v["call"]]
         out.append({"replay": write_replay("C03", "history-%d" % j, {"property": "C03", "kind": "history dependence on the implementation", **v,
                     "rerun": "python harness/c03_worker.py /repo < (minimal_history as JSON); compare the last outcome with the call alone"})})
-    cov = {"evaluations": ncalls + len(P) + len(need), "distinct_nontrivial": len(distinct),
+    # model tie: the Lean model of the Dictionary class caches (C03_cache_refine, C20_dict_getter) against the real class-level caches
+    tie_stats = {}
+    if "model-build" not in ctx["broken"]:
+        from props import c03_tie
+        from common import Model, pmap
+        tm, tdom, tie_stats = c03_tie.run_tie(rng("c03-tie"), 400 if tier == "quick" else 12000, Model(), pmap)
+        for j, dv in enumerate(tdom[:3]):
+            out.append({"replay": write_replay("C03", "cache-history-%d" % j, {"property": "C03", "kind": "an access of the Dictionary class cache after a history of accesses does not return its fresh-state value", **dv,
+                        "rerun": "harness/props/c03_tie.py probe(history)"})})
+        tie_stats["model_drift"] = len(tm)
+        if tm and not out and not ctx["broken"]:
+            ctx["broken"]["correspondence"] = json.dumps(tm[:3], ensure_ascii=False, default=str)[:4000]
+    cov = {"evaluations": ncalls + len(P) + len(need) + tie_stats.get("accesses", 0), "model_tie": tie_stats, "distinct_nontrivial": len(distinct),
            "rule": "histories of 2–10 calls drawn from a pool of %d calls (parse / DateDataParser / search_dates / calendars; settings variants incl. SKIP_TOKENS, NORMALIZE, DATE_ORDER, DEFAULT_LANGUAGES, PARSERS, CACHE_SIZE_LIMIT ∈ {0,1,2,1000}; failing calls), one interpreter per history; each call compared with the same call alone in a fresh interpreter; 1 in 6 histories under another PYTHONHASHSEED; non-trivial = distinct pool calls that returned a value inside a history" % len(P),
            "samples": [{"history": [{"fn": P[i]["fn"], "s": P[i]["s"], "kw": P[i].get("kw")} for i in idx][:4], "hashseed": seed} for idx, seed in hists[:3]],
            "histories": len(hists), "pool": len(P), "calls_compared": ncalls, "history_violations": len(viol), "hash_seeds": seeds}
